@@ -45,6 +45,7 @@ pub fn by_partial_ord(a: &u8, b: &u8) -> Option<Ordering> { Some(((a + 2) % 4).c
 pub fn by_eq(a: &u8, b: &u8) -> bool { (*a).min(2) == (*b).min(2) }
 pub fn by_partial_eq(a: &u8, b: &u8) -> bool { (*a).max(1) == (*b).max(1) }
 pub fn by_hash<H: Hasher>(a: &u8, s: &mut H) { s.write_u8(a % 2 + 7) }
+pub fn fn0(_: u8) -> u8 { 0 } pub fn fn1(_: u8) -> u8 { 1 } pub fn fn2(x: u8) -> u8 { x + 1 } pub fn fn3(_: u8) -> u8 { 2 }
 pub fn o2c(o: Option<Ordering>) -> char { match o { None => 'N', Some(Ordering::Less) => 'L', Some(Ordering::Equal) => 'E', Some(Ordering::Greater) => 'G' } }
 pub struct Rec(pub String);
 impl Hasher for Rec {
@@ -59,7 +60,10 @@ impl Hasher for Rec {
 '''
 
 
-def combo_attrs(combo):
+FK = [0, 1, 1, 2]     # fn0..fn3 applied to 0: fn1 and fn2 are different functions with the same key
+
+
+def combo_attrs(combo, ftype='u8'):
     """combo: dict attr -> option string; returns list of attribute S-expressions"""
     out = []
     for a in ATTRS:
@@ -73,7 +77,7 @@ def combo_attrs(combo):
             elif part == 'reverse':
                 kw['reverse'] = True
             elif part == 'key':
-                kw['key'] = KEY[a][0]
+                kw['key'] = '( ( $ ) ( 0 ) )' if ftype == 'F' else KEY[a][0]
             elif part == 'by':
                 kw['by'] = BY[a][0]
         out.append(sx.a_cmp(a, sx.m_list(sx.cargs(**kw))))
@@ -132,7 +136,7 @@ def field_pcmp(ftype, combo, tr, x, y):
     if s is None:
         r = p_pcmp(x, y) if ftype == 'P' else _cmp(x, y)
     elif s[0] == 'key':
-        k = KEY[s[1]][1]
+        k = (lambda i: FK[i]) if ftype == 'F' else KEY[s[1]][1]
         r = _cmp(k(x), k(y))
     else:
         k = BY[s[1]][1]
@@ -144,7 +148,7 @@ def field_eq(ftype, combo, x, y):
     s = selected('PartialEq', combo)
     if s is None:
         return x == y and not (ftype == 'P' and x == 9)
-    k = KEY[s[1]][1] if s[0] == 'key' else BY[s[1]][1]
+    k = (lambda i: FK[i]) if ftype == 'F' else KEY[s[1]][1] if s[0] == 'key' else BY[s[1]][1]
     return k(x) == k(y)
 
 
@@ -156,12 +160,14 @@ def p_pcmp(x, y):
     return _cmp(x, y)
 
 
-def field_feed(combo, x):
+def field_feed(combo, x, ftype='u8'):
     s = selected('Hash', combo)
     if s is None:
+        if ftype == 'A':       # an array feeds its length prefix, then its elements (as the field's own Hash impl does)
+            return 'usize:2;b[%d, 0];' % x
         return 'u8:%d;' % x
     if s[0] == 'key':
-        return 'u8:%d;' % KEY[s[1]][1](x)
+        return 'u8:%d;' % (FK[x] if ftype == 'F' else KEY[s[1]][1](x))
     return 'u8:%d;' % BY[s[1]][1](x)
 
 
@@ -185,7 +191,7 @@ def ref_ord(variants, tr, a, b):
 
 
 def ref_feed(variants, a):
-    return ''.join(field_feed(cb, x) for (ft, cb), x in zip(variants[a[0]], a[1]) if not ignored('Hash', cb))
+    return ''.join(field_feed(cb, x, ft) for (ft, cb), x in zip(variants[a[0]], a[1]) if not ignored('Hash', cb))
 
 
 # ---- enumeration / sampling of combos ------------------------------------------------------
@@ -208,8 +214,8 @@ def relevant_combo(traits, combo):
 def make_item(name, variants, is_enum, traits, mode, extra_derives=(), discrs=None, item_attrs=()):
     """variants: list of (named: bool, [(ftype, combo)]) ; returns request S-expression"""
     def fields_s(named, fl):
-        fs = [sx.field(sx.tid('u8' if ft == 'u8' else 'P'), name=('f%d' % i) if named else None,
-                       attrs=combo_attrs(cb)) for i, (ft, cb) in enumerate(fl)]
+        fs = [sx.field(sx.tarray(sx.tid('u8'), sx.clit('2')) if ft == 'A' else sx.tfn([sx.tid('u8')], sx.tid('u8')) if ft == 'F' else sx.tid('u8' if ft == 'u8' else 'P'), name=('f%d' % i) if named else None,
+                       attrs=combo_attrs(cb, ft)) for i, (ft, cb) in enumerate(fl)]
         if named:
             return sx.named(fs)
         return sx.unnamed(fs) if fs else sx.UNIT
@@ -229,7 +235,7 @@ def values_of(variants, dom_u8, dom_p):
     """all values: (variant index, tuple of field values)"""
     out = []
     for vi, (_, fl) in enumerate(variants):
-        doms = [dom_p if ft == 'P' else dom_u8 for ft, _ in fl]
+        doms = [dom_p if ft == 'P' else [0, 1, 2, 3] if ft == 'F' else dom_u8 for ft, _ in fl]
         for t in itertools.product(*doms):
             out.append((vi, t))
     return out
@@ -239,7 +245,7 @@ def rust_value(name, variants, is_enum, v):
     vi, t = v
     named, fl = variants[vi]
     def fv(ft, x):
-        return ('P(%d)' % x) if ft == 'P' else ('%du8' % x)
+        return ('P(%d)' % x) if ft == 'P' else ('[%du8, 0]' % x) if ft == 'A' else ('(fn%d as fn(u8) -> u8)' % x) if ft == 'F' else ('%du8' % x)
     path = '%s::V%d' % (name, vi) if is_enum else name
     if named:
         return '%s { %s }' % (path, ', '.join('f%d: %s' % (i, fv(ft, x)) for i, ((ft, _), x) in enumerate(zip(fl, t))))
